@@ -9,9 +9,9 @@ SPEC = dict(
     patterns={2: "C06-udp-zero-checksum", 3: "C06-ping6-no-pseudo-header", 4: "C06-ndp-solicit-zero-src-mac"},
     rule="every frame captured at the link layer of real stacks driven through a scenario sweep, one case per frame with the scenario's identity "
          "(addresses, ports, MACs): UDP writes of 0/1/2/3/8/9/40/41/odd/even/1472/1473 and, once per run, 65506..65508 (IPv4) / 65526..65528 (IPv6) bytes "
-         "from bound/unbound, connected/unconnected sockets; TCP active and passive opens against a scripted peer for all 16 combinations of the peer's "
-         "MSS/WS/TS/SACK-permitted options (stack SACK on/off), then data both ways, pure ACKs, three out-of-order islands (SACK blocks), hole filled, "
-         "orderly FIN or abort (RST) - IPv4 on a plain link for every combination and a rotating subset over IPv6, checksum-offload, "
+         "from bound/unbound, connected/unconnected sockets; TCP against a scripted peer: passive opens for all 16 combinations of the peer's "
+         "MSS/WS/TS/SACK-permitted options (the SYN-ACK mirrors them), active opens for six TS/SACK combinations, then data both ways, pure ACKs, one or "
+         "three out-of-order islands (SACK blocks), hole filled, orderly FIN or abort (RST) - IPv4 on a plain link plus eight rotating variants over IPv6, checksum-offload, "
          "resolution-required and fd-based Ethernet (socketpair) links with MTU 576/1500/9000; RSTs to segments for closed ports; ICMPv4/ICMPv6 echo "
          "replies (payload 0,1,2,3,56,57,even,odd); neighbour advertisements and ARP replies; the stack's own ARP requests / neighbour solicitations "
          "followed by datagrams to the resolved next hop (direct and through a gateway); two NICs with three route tables (first match, not longest "
